@@ -291,6 +291,9 @@ func corpusGoGen() []*modSpec {
 		mk("go-link-nullable-unique-key", "package models\n\nimport \"database/sql\"\n\ntype IdBadge int64\ntype IdUser int64\n\ntype OptUser struct {\n\tValid bool\n\tId IdUser\n}\n\ntype Badge struct {\n\tId IdBadge\n\tName string\n}\n\ntype User struct {\n\tId IdUser\n\tName string\n}\n\n// gomacro:SQL ADD UNIQUE(Holder)\n// gomacro:SQL ADD UNIQUE(IdBadge)\ntype BadgeOwner struct {\n\tIdBadge IdBadge\n\tHolder sql.NullInt64 `gomacro-sql-foreign:\"User\"`\n\tOwner OptUser `gomacro-sql-foreign:\"User\"`\n}\n\n// gomacro:SQL ADD UNIQUE(Owner)\ntype Medal struct {\n\tId int64\n\tOwner OptUser `gomacro-sql-foreign:\"User\"`\n\tIdBadge IdBadge\n}\n"),
 		mk("go-date-column", "package models\n\nimport \"time\"\n\ntype Date time.Time\ntype Moment time.Time\n\ntype T struct {\n\tId int64\n\tD Date\n\tM Moment\n\tT time.Time\n}\n"),
 		mk("go-json-columns", "package models\n\ntype Inner struct{ A string; B []int }\ntype L []Inner\ntype M map[string]int\n\ntype T struct {\n\tId int64\n\tI Inner\n\tL L\n\tM M\n}\n"),
+		mk("go-ignored-union-field-of-a-sibling-file", "package models\n\ntype T struct {\n\tA int\n\tS Shape `gomacro:\"ignore\"`\n}\n",
+			modFile{"shapes.go", "package models\n\ntype Shape interface{ isShape() }\n\ntype Circle struct{ R int }\n\nfunc (Circle) isShape() {}\n"}),
+		mk("go-ignored-union-field", "package models\n\ntype Shape interface{ isShape() }\n\ntype Circle struct{ R int }\n\nfunc (Circle) isShape() {}\n\ntype T struct {\n\tA int\n\tS Shape `gomacro:\"ignore\"`\n\tP *Shape `gomacro:\"ignore\"`\n}\n"),
 		mk("go-subpackage-types", "package models\n\nimport \"example.com/org/models/sub\"\n\ntype T struct {\n\tId int64\n\tE sub.E\n\tS sub.S\n\tL []sub.S\n}\n", modFile{"sub/sub.go", "package sub\n\ntype E int\n\nconst (\n\tEA E = iota\n\tEB\n)\n\ntype S struct{ X, Y int }\n"}),
 	}
 }
